@@ -1,6 +1,7 @@
 package rv
 
 import (
+	"fmt"
 	"sort"
 	"regexp"
 	"go/types"
@@ -17,11 +18,11 @@ const probPkg = "rueidis/rueidisprob"
 func init() {
 	Registry["C35"] = RuleDef{Module: "rueidisprob", Run: func(r *Report) { runProb(r, "C35", "bloomFilter", "R35") },
 		Technique:   "bounds prover (lower bounds of the filter parameters through one level of callee summaries), who-may-write rule on the parameter fields, sibling agreement of the add and query paths",
-		Explanation: "(R35d) scripts are built with a constructor that matches their text: read-only scripts do not write, no retryable script contains a non-idempotent command. Decides for rueidisprob's Bloom filter (R35a) that the number of hash functions and the bit size stored by every constructor are proved >= 1 on every path (a rounding to 0 hash functions makes Add set nothing and Exists answer false), and that these fields are written nowhere else; (R35b) that the add and the query path derive their bit indexes from the same indexes method, which reads the same size and hash-count fields and reduces every index modulo that size, and that both pass the hash count string the constructor derived from the very value stored as the hash count; (R35c) that ExistsMulti allocates one answer per input key and fills answers at the response's own position.",
+		Explanation: "(R35d) scripts are built with a constructor that matches their text: read-only scripts do not write, no retryable script contains a non-idempotent command. Decides for rueidisprob's Bloom filter (R35a) that the number of hash functions and the bit size stored by every constructor are proved >= 1 on every path (a rounding to 0 hash functions makes Add set nothing and Exists answer false), and that these fields are written nowhere else; (R35b) that the add and the query path derive their bit indexes from the same indexes method, which reads the same size and hash-count fields and reduces every index modulo that size, and that both pass the hash count string the constructor derived from the very value stored as the hash count; (R35c) that ExistsMulti allocates one answer per input key and fills answers at the response's own position; (R35e) in every embedded script, a variable that feeds a per-item answer (appears in a table.insert inside the per-item loop) and carries state across iterations is re-armed inside the loop by an assignment that neither uses nor is conditioned on its old value - otherwise an item's answer depends on the items before it in the batch (block-structure lint over the script text, not Lua semantics).",
 		NotDecided:  "the server-side Lua scripts and BITFIELD semantics; hash quality; Count monotonicity (server-side counter)."}
 	Registry["C36"] = RuleDef{Module: "rueidisprob", Run: func(r *Report) { runProb(r, "C36", "countingBloomFilter", "R36") },
 		Technique:   "bounds prover (parameter lower bounds, divisor >= 1), who-may-write rule, sibling agreement of add / remove / query paths",
-		Explanation: "(R36d) the increment/decrement scripts are not built retryable (an automatic re-send after a lost reply would count twice) and read-only scripts do not write. Decides for the counting Bloom filter (R36a) that the hash count and size stored by the constructor are proved >= 1 and written nowhere else; (R36b) that add, remove, query and min-count paths all obtain their field indexes from the same indexes method reading the same fields, reduced modulo the size; (R36c) that every grouping of per-hash replies by `(i+1) % hashIterations` divides by a value proved >= 1 (field invariant from R36a), so the grouping can neither panic nor lose groups.",
+		Explanation: "(R36d) the increment/decrement scripts are not built retryable (an automatic re-send after a lost reply would count twice) and read-only scripts do not write. Decides for the counting Bloom filter (R36a) that the hash count and size stored by the constructor are proved >= 1 and written nowhere else; (R36b) that add, remove, query and min-count paths all obtain their field indexes from the same indexes method reading the same fields, reduced modulo the size; (R36c) that every grouping of per-hash replies by `(i+1) % hashIterations` divides by a value proved >= 1 (field invariant from R36a), so the grouping can neither panic nor lose groups; (R36e) in every embedded script, a variable that feeds a per-item answer (appears in a table.insert inside the per-item loop) and carries state across iterations is re-armed inside the loop by an assignment that neither uses nor is conditioned on its old value - otherwise an item's answer depends on the items before it in the batch (block-structure lint over the script text, not Lua semantics).",
 		NotDecided:  "the server-side scripts (rollback of a removal that would drive a counter negative); multiplicity arithmetic on the server."}
 }
 
@@ -282,6 +283,11 @@ func scriptConstructorRule(r *Report, rule, pkgShort, onlyFile string) int {
 				}
 			}
 			r.Ob(rule, nil, "script-constructor:"+sel.Sel.Name+":"+types.ExprString(ce.Args[0]), ce.Pos(), bad == "", "a script re-sent automatically after a lost connection must be idempotent and a read-only script must not write (commands: "+strings.Join(dedupSorted(cmds), ",")+"); "+bad)
+			if strings.HasPrefix(rule, "R35") || strings.HasPrefix(rule, "R36") {
+				if carried, un := luaUnrearmedLoopState(src); len(carried) > 0 {
+					r.Ob(rule[:3]+"e", nil, "per-item-state-re-armed:"+types.ExprString(ce.Args[0]), ce.Pos(), len(un) == 0, fmt.Sprintf("every variable that carries state across the iterations of the script's per-item loop %v is re-armed inside the loop by an assignment that neither uses nor is conditioned on its old value (not re-armed: %v)", carried, un))
+				}
+			}
 			return true
 		})
 	}
